@@ -71,7 +71,7 @@ func c04Gen(t *rapid.T) c04Case {
 		}
 	}
 	c.Probe = c04Probe{
-		Kind:  rapid.SampledFrom([]string{"none", "payload", "payload", "sigbyte", "sigbyte", "keyid", "pubswap", "dropsig"}).Draw(t, "probe"),
+		Kind:  rapid.SampledFrom([]string{"none", "payload", "payload", "sigbyte", "sigbyte", "keyid", "pubswap", "dropsig", "ptype"}).Draw(t, "probe"),
 		A:     rapid.IntRange(0, 1<<16).Draw(t, "pa"),
 		B:     rapid.IntRange(0, 1<<16).Draw(t, "pb"),
 		Other: rapid.SampledFrom(append([]string{"ecdsa-p256-0", "ecdsa-p256-1", "ecdsa-p256-0", "ed25519-3"}, hx.CheapPoolNames()...)).Draw(t, "other"),
@@ -412,6 +412,15 @@ func c04Run(c c04Case, r *hx.Rec) error {
 		tree["signatures"] = append(append([]any{}, sigs[:si]...), sigs[si+1:]...)
 	case "pubswap":
 		// handled below on the key object
+	case "ptype":
+		// DSSE: the payload type is part of what is signed (PAE); spelled otherwise the file carries no
+		// signature over its current content
+		pt, ok := tree["payloadType"].(string)
+		if !ok {
+			return nil
+		}
+		variants := []string{strings.ToUpper(pt), strings.Replace(pt, "json", "JSON", 1), strings.Replace(pt, "application", "Application", 1), pt + " ", " " + pt, strings.Replace(pt, "+json", "", 1), pt + ";charset=utf-8"}
+		tree["payloadType"] = variants[c.Probe.B%len(variants)]
 	}
 	mp := filepath.Join(dir, "probe.json")
 	_ = os.WriteFile(mp, hx.EncodeGeneric(tree), 0o644)
